@@ -32,7 +32,9 @@ Init ==
               /\ HasPath(c, Templates[i].name)
               /\ \E s \in {FirstString(i), [j \in DOMAIN FirstString(i) |-> NthConcrete(Templates[i].ph[j], 2)]} :
                     /\ ToPath(c, SidOf(s)) # <<>>
-                    /\ call = [op |-> "frompath", cfg |-> c, path |-> ToPath(c, SidOf(s))]
+                    \* noconfig: the configuration argument is omitted (only meaningful for the default one)
+                    /\ \E nc \in (IF c = Raw.default_path_config THEN BOOLEAN ELSE {FALSE}) :
+                          call = [op |-> "frompath", cfg |-> c, path |-> ToPath(c, SidOf(s)), noconfig |-> nc]
 P == call.path
 SubLex == \E s \in 2..Len(P) : \E k \in DOMAIN P[s] : \E t \in PathTokens :
              t # P[s][k] /\ call' = [call EXCEPT !.path[s][k] = t]
@@ -54,7 +56,10 @@ RoundTrip == Family = "topath" => \A c \in PathConfigs :
    LET p == ToPath(c, X) IN
       IF X.type # "" /\ HasPath(c, X.type) THEN p # <<>> /\ (call.uri # <<>> \/ FromPath(c, p).sid = X) /\ ~FromPath(c, p).amb
       ELSE p = <<>>
-SameUpToRoot == Family = "topath" => \A c1, c2 \in PathConfigs : ToPath(c1, X) = ToPath(c2, X)
+\* two configurations that differ only by their root (same templates, patterns, mappings, defaults)
+SameShape(c1, c2) == PC(c1).templates = PC(c2).templates /\ PC(c1).mapping = PC(c2).mapping /\
+                     PC(c1).key_patterns = PC(c2).key_patterns /\ PC(c1).defaults = PC(c2).defaults
+SameUpToRoot == Family = "topath" => \A c1, c2 \in PathConfigs : SameShape(c1, c2) => ToPath(c1, X) = ToPath(c2, X)
 OwnerOnly == Family = "frompath" =>
    LET r == FromPath(call.cfg, call.path) IN r.sid.type = "" \/ SamePath(ToPath(call.cfg, r.sid), call.path)
 =============================================================================
